@@ -1,45 +1,11 @@
-"""Per-property configuration of ./check: harness blocks, Lean proof modules, theorem namespaces."""
-
-FLOAT_ASSUMPTION = (
-    "theorems are about exact arithmetic in an arbitrary linearly ordered field; binary64 rounding is "
-    "not modelled: the same model definitions instantiated at IEEE Float must reproduce the "
-    "implementation's doubles bit for bit on every generated op (checked this run)"
-)
-
-PROPS = {
-    "C02": {
-        "blocks": ["sp"],
-        "proof_modules": ["C02"],
-        "namespaces": ["Altrios.Proofs.C02", "Altrios.Proofs.C13"],
-        "required_theorems": [
-            "Altrios.Proofs.C13.C13_insert_exact",
-            "Altrios.Proofs.C02.C02_insert_sound",
-            "Altrios.Proofs.C02.C02_insert_mono",
-            "Altrios.Proofs.C02.C02_profile_sound",
-            "Altrios.Proofs.C02.C02_route_sound",
-        ],
-        "nontrivial_stats": ["sp.branch.", "sp.route.set_applies", "sp.route.set_gated_off"],
-        "rule": "each evaluation is one call of the real insert_speed / PathTpc::extend (one link) replayed through "
-                "the literal and the structural Lean model; non-trivial = the call went through one of the counted "
-                "branches (after-end, abutting, general, strictly-inside, zero-length) or a gated/applied speed set",
-        "assumptions": [FLOAT_ASSUMPTION,
-                        "speeds are not -0.0 / NaN (is_sign_positive is modelled as 0 <= v)"],
-    },
-    "C13": {
-        "blocks": ["sp"],
-        "proof_modules": ["C13"],
-        "namespaces": ["Altrios.Proofs.C13"],
-        "required_theorems": [
-            "Altrios.Proofs.C13.C13_insert_exact",
-            "Altrios.Proofs.C13.C13_insert_canonical",
-            "Altrios.Proofs.C13.C13_insert_pre",
-            "Altrios.Proofs.C13.C13_profile_exact",
-            "Altrios.Proofs.C13.C13_profile_canonical",
-        ],
-        "nontrivial_stats": ["sp.branch.", "sp.route.set_applies", "sp.route.set_gated_off"],
-        "rule": "as C02; the oracle additionally requires equality with the brute-force minimum at every breakpoint, "
-                "midpoint and +-1 ulp neighbour, and canonicity of the stored vector",
-        "assumptions": [FLOAT_ASSUMPTION,
-                        "speeds are not -0.0 / NaN (is_sign_positive is modelled as 0 <= v)"],
-    },
-}
+"""Loads the per-property configuration files cfg/Cxx.py (PROP = check config, TEXT = MANIFEST texts)."""
+import importlib, os, re, sys
+ROOT = os.path.dirname(os.path.abspath(__file__))
+sys.path.insert(0, ROOT)
+PROPS, TEXT = {}, {}
+for f in sorted(os.listdir(os.path.join(ROOT, "cfg"))):
+    m = re.fullmatch(r"(C\d+)\.py", f)
+    if m:
+        mod = importlib.import_module("cfg." + m.group(1))
+        PROPS[m.group(1)] = mod.PROP
+        TEXT[m.group(1)] = mod.TEXT
